@@ -8,23 +8,14 @@ use signalo_traits::{ConfigRef, Filter, WithConfig};
 
 pub const HEADER: &str = "From Signalo Require Import Check.Common Check.C05.";
 
-/// exact value of a finite f64
-pub fn f64_exact(v: f64) -> Option<Rat> {
-    if !v.is_finite() { return None; }
-    if v == 0.0 { return Some(Rat::int(0)); }
-    let bits = v.to_bits(); let sign = if bits >> 63 == 1 { -1i128 } else { 1 };
-    let e = ((bits >> 52) & 0x7ff) as i64; let frac = (bits & ((1u64 << 52) - 1)) as i128;
-    let (m, ex) = if e == 0 { (frac, -1074) } else { (frac | (1i128 << 52), e - 1075) };
-    if ex >= 0 { if ex > 60 { return None; } Some(Rat::new(sign * m * (1i128 << ex), 1)) }
-    else { if -ex > 120 { return None; } let mut m = m; let mut k = -ex; while k > 0 && m % 2 == 0 { m /= 2; k -= 1; } if k > 100 { return None; } Some(Rat::new(sign * m, 1i128 << k)) }
-}
+pub use crate::util::f64_exact;
 
 pub fn generate(tier: &str, rng: &mut Rng) -> Vec<Spec> {
     let t = tier == "thorough"; let mut v = vec![];
     let cs = [Rat::int(-1), Rat::int(0), Rat::int(1), Rat::int(2)];
-    let sigs = |len: usize| super::all_seqs(&[Rat::int(-1), Rat::int(0), Rat::int(3)], len);
+    let sigs = |len: usize| crate::util::all_seqs(&[Rat::int(-1), Rat::int(0), Rat::int(3)], len);
     for kind in ["conv", "norm"] {
-        for n in 1..=3usize { for c in super::all_seqs(&cs, n) { for xs in sigs(if t { 5 } else { 4 }) {
+        for n in 1..=3usize { for c in crate::util::all_seqs(&cs, n) { for xs in sigs(if t { 5 } else { 4 }) {
             if !t && n == 3 && (xs[0] == Rat::int(0)) { continue; }
             v.push(Spec::new(kind).with("N", n).with("c", join_rats(&c)).with("xs", join_rats(&xs))); } } }
         for _ in 0..(if t { 2500 } else { 350 }) {
@@ -36,7 +27,7 @@ pub fn generate(tier: &str, rng: &mut Rng) -> Vec<Spec> {
         }
     }
     for n in [0usize, 1, 2, 3, 4, 5, 6, 16] {
-        for l in 0..=(if t { 7 } else { 6 }) { for xs in super::all_seqs(&[1i64, 2, 5], l) { if n > 3 && l < 5 { continue; } v.push(Spec::new("delay").with("N", n).with("xs", join(&xs))); } }
+        for l in 0..=(if t { 7 } else { 6 }) { for xs in crate::util::all_seqs(&[1i64, 2, 5], l) { if n > 3 && l < 5 { continue; } v.push(Spec::new("delay").with("N", n).with("xs", join(&xs))); } }
         for _ in 0..(if t { 100 } else { 15 }) { let len = rng.range(1, 60) as usize; let xs: Vec<i64> = (0..len).map(|_| rng.range(-99, 99)).collect(); v.push(Spec::new("delay").with("N", n).with("xs", join(&xs))); }
     }
     for n in 1..=13 { for ty in ["f32", "f64"] { v.push(Spec::new("sg").with("N", n).with("ty", ty)); } }
